@@ -146,6 +146,8 @@ def ap_check_tx_validity():
             C("exist", "res is Ok ==> forall|i: int| 0 <= i < tx.inputs@.len() ==> relevant_coins@.contains_key(#[trigger] tx.inputs@[i])", "C02", "C04", "C19"),
             C("unlocked", "res is Ok && !lock_legacy(this.network, this.height) ==> forall|i: int| 0 <= i < tx.inputs@.len() ==> !new_stakes@.contains_key((#[trigger] tx.inputs@[i]).txhash) && !this.stakes@.contains_key(tx.inputs@[i].txhash)", "C13", "C02"),
             C("approved", "res is Ok ==> forall|i: int| 0 <= i < tx.inputs@.len() ==> script_approves(spec_covenants_map(*tx), relevant_coins@[tx.inputs@[i]].coin_data.covhash, *tx, #[trigger] env_of(*tx, relevant_coins@, i, spec_last_header(*this)))", "C04", "C02", "C19"),
+            C("approved_first", "res is Ok ==> forall|i: int| 0 <= i < tx.inputs@.len() && first_occ(*tx, relevant_coins@, i) ==> script_approves(spec_covenants_map(*tx), relevant_coins@[tx.inputs@[i]].coin_data.covhash, *tx, #[trigger] env_of(*tx, relevant_coins@, i, spec_last_header(*this)))", "C04", "C02", "C19",
+              note="holds WITHOUT the envelopes of the two C04 findings: the first input locked by each covenant hash is always run against its own environment (the cache cannot have it yet); this is what the marker / destroyed-output arguments of the batch level rest on"),
             C("pos", "res is Ok ==> forall|i: int| 0 <= i < tx.inputs@.len() ==> (#[trigger] env_of(*tx, relevant_coins@, i, spec_last_header(*this))).spender_index as int == i", "C04",
               note="the position among the inputs that a covenant is told IS the input's position (the code passes `position as u8`); holds under the envelope `small`, fails without it: known finding F-C04-index"),
             C("balanced", "res is Ok ==> balanced(tx.kind, in_sums(tx.inputs@, relevant_coins@, tx.inputs@.len() as int), spec_total_outputs(*tx))", "C01", "C02"),
@@ -480,3 +482,18 @@ def tx_base_fee():
                            note="minimum fee = floor(min(weight x multiplier, 2^128-1) / 65536): saturating product, then >> 16")])
 
 COV_WEIGHT_STUB = "#[verifier::external_body] pub fn covenant_weight_from_bytes(b: &[u8]) -> (r: u128) ensures r as nat == spec_cov_weight_b(b@) { unimplemented!() }   // contract proved in unit codec"
+
+def ap_check_tx_validity_stub():
+    """what the callers of check_tx_validity may assume WITHOUT the envelopes of the two C04 findings.  Derived from what unit applychk proves:
+    the whole contract under the envelopes (base run) and the clauses exist / unlocked / balanced / locked_err / errkind / approved_first without
+    them (must_hold of the finding variants).  `approved` and `pos` are therefore stated under the domain c04_domain here."""
+    d = ap_check_tx_validity()
+    req = [c for c in d["requires"] if not c.envelope_of]
+    ens = []
+    for c in d["ensures"]:
+        if c.cid in ("approved", "pos"):
+            c2 = C(c.cid, c.text.replace("res is Ok ==>", "res is Ok && c04_domain(*tx, relevant_coins@) ==>", 1), *c.props, note="under the domain of the two C04 findings only (F-C04-cache, F-C04-index)")
+            ens.append(c2)
+        else:
+            ens.append(c)
+    return dict(requires=req, ensures=ens)
